@@ -297,6 +297,16 @@ def fftMulInv? (A : Arith K) (s : State K) (sInv : Option (State K)) (a b : Arra
         | .error e => .error e
         | .ok (_, r) => .ok (s, r)
 
+/-- forward transforms, pointwise product, `fft_inv_into` with a caller-supplied destination (any length). -/
+def fftMulInvInto? (A : Arith K) (s : State K) (a b : Array Int) (n : Nat) (res : List Int) :
+    Except Panic (State K × List Int) :=
+  match fft? A s a n with
+  | .error e => .error e
+  | .ok (s, fa) =>
+    match fft? A s b n with
+    | .error e => .error e
+    | .ok (s, fb) => fftInvInto? A s (pointwise A fa fb) res
+
 /-! ### Call histories -/
 
 /-- One call of the public API (the composite `fftMulInv` is the user-level
@@ -312,6 +322,7 @@ inductive Op (K : Type) where
   | fftInvInto (v : Array K) (res : List Int)
   | fftMulInv (a b : Array Int) (n : Nat)
   | fftMulInvFresh (a b : Array Int) (n : Nat)
+  | fftMulInvInto (a b : Array Int) (n : Nat) (res : List Int)
 
 /-- What a call returns. -/
 inductive Out (K : Type) where
@@ -330,6 +341,7 @@ def call (A : Arith K) (s : State K) : Op K → Except Panic (State K × Out K)
   | .fftInvInto v res => (fftInvInto? A s v res).map (fun r => (r.1, .ints r.2))
   | .fftMulInv a b n => (fftMulInv? A s none a b n).map (fun r => (r.1, .ints r.2))
   | .fftMulInvFresh a b n => (fftMulInv? A s (some (new A)) a b n).map (fun r => (r.1, .ints r.2))
+  | .fftMulInvInto a b n res => (fftMulInvInto? A s a b n res).map (fun r => (r.1, .ints r.2))
 
 /-- State of the object after a call; a call that panics (before touching the tables: the only
     panics are the assertion of `update_n` and violated preconditions) leaves the tables as they were. -/
